@@ -1,7 +1,7 @@
 """psv.props — which rules decide which property."""
 from . import core
 from .report import Check
-from .rules import cw, ed, mt, ts, vg, pm, ax, kb, dp, sg, uw, sm, fs, tc
+from .rules import cw, ed, mt, ts, vg, pm, ax, kb, dp, sg, uw, sm, fs, tc, ge
 from . import selftest
 
 
@@ -343,7 +343,25 @@ def c06(tier):
     return C.finish()
 
 
-TABLE = {"C06": c06, "C19": c19, "C14": c14, "C10": c10, "C11": c11, "C03": c03, "C02": c02, "C05": c05, "C04": c04, "C16": c16, "C15": c15, "C18": c18, "C08": c08, "C12": c12, "C20": c20, "C13": c13, "C07": c07}
+def c17(tier):
+    C = Check("C17", tier,
+              explanation="One structural clause of grid evaluation: the wiring. The coefficient array becomes a sparse n-tuple by row-major decomposition "
+              "with the table's strides, with exactly the non-zero coefficients and the axis lengths as ranges (GE-1); every dimension's own "
+              "knots, knot count, order and coordinate vector feed bsplinebasis and the product is applied along that same dimension (GE-2); "
+              "bsplinebasis fills basis(row, col) = bspline(knots, x[row], col, order) column-major and its private bspline() is a clone of "
+              "the library's reference (GE-3); the C wrapper forwards and transfers ownership once (CW-4/CW-5). Numerical agreement with "
+              "pointwise evaluation (two different algorithms, CHOLMOD products) is NOT decided.",
+              assumptions=["slicemultiply computes the mode-i product (its internals are index arithmetic over runtime shapes, not analysed)"])
+    P = core.load(tier=tier, extra_units=selftest.UNITS)
+    ge.run(P, C)
+    cw.cw1(P, C, only=("splinetable_grideval",))
+    cw.cw2(P, C, only=("splinetable_grideval",))
+    C.extra["units"] = sorted(P.units.keys())
+    C.extra["not_decided"] = ["numerical agreement with pointwise evaluation", "slicemultiply index arithmetic"]
+    return C.finish()
+
+
+TABLE = {"C17": c17, "C06": c06, "C19": c19, "C14": c14, "C10": c10, "C11": c11, "C03": c03, "C02": c02, "C05": c05, "C04": c04, "C16": c16, "C15": c15, "C18": c18, "C08": c08, "C12": c12, "C20": c20, "C13": c13, "C07": c07}
 
 
 def run(prop, tier):
